@@ -242,7 +242,37 @@ def r_asserteq(toks):
         out.append(t); i += 1
     return out, n
 
-RULES = {"asserteq": r_asserteq, "cratepath": r_cratepath, "constfold": r_constfold, "be": r_be, "vis": r_vis, "static": r_static, "attr": r_attr, "mutfull": r_mutfull, "noderive": r_derive_drop}
+def r_cfg(toks):
+    """`#[cfg(gm_rs_verif)] <statement or item>` and `#[cfg(test)] ...`: the guard is OFF in the build that ships, so the
+    guarded statement/item is removed together with its attribute (dropping only the attribute would switch the hook on)."""
+    out = []; n = 0; i = 0
+    while i < len(toks):
+        t = toks[i]
+        if (t.text == "#" and i + 6 < len(toks) and toks[i + 1].text == "[" and toks[i + 2].text == "cfg" and toks[i + 3].text == "("
+                and toks[i + 4].text in ("gm_rs_verif", "test") and toks[i + 5].text == ")" and toks[i + 6].text == "]"):
+            j = i + 7
+            # skip further attributes
+            while j < len(toks) and toks[j].text == "#" and toks[j + 1].text == "[":
+                j = match_close(toks, j + 1) + 1
+            depth = 0; k = j
+            while k < len(toks):
+                x = toks[k]
+                if x.kind == "punct":
+                    if x.text in "([{": depth += 1
+                    elif x.text in ")]}":
+                        depth -= 1
+                        if depth == 0 and x.text == "}":
+                            # block item/statement ends here unless followed by `;`
+                            if k + 1 < len(toks) and toks[k + 1].text == ";": k += 1
+                            break
+                    elif x.text == ";" and depth == 0: break
+                k += 1
+            if k + 1 < len(toks): toks[k + 1].ws = t.ws
+            n += 1; i = k + 1; continue
+        out.append(t); i += 1
+    return out, n
+
+RULES = {"cfg": r_cfg, "asserteq": r_asserteq, "cratepath": r_cratepath, "constfold": r_constfold, "be": r_be, "vis": r_vis, "static": r_static, "attr": r_attr, "mutfull": r_mutfull, "noderive": r_derive_drop}
 
 def apply_text(toks, pairs, counts):
     """unit-declared token-sequence replacements (//@rewrite-text A ==> B): constructs outside the Verus subset are
